@@ -123,6 +123,7 @@ func c15Gen(r *Rng) c15WS {
 	}
 	al.WriteString("---@alias AliasTwo AliasOne\n")
 	al.WriteString("---@alias AliasArr " + names[0] + "[]\n")
+	al.WriteString("---@alias AliasMap table<string, " + names[n-1] + ">\n---@alias AliasMapTwo AliasMap\n")
 	if cyc {
 		al.WriteString("---@alias CycA CycB\n---@alias CycB CycA\n")
 	}
@@ -135,7 +136,17 @@ func c15Gen(r *Rng) c15WS {
 	nv := r.Range(2, 6)
 	for i := 0; i < nv; i++ {
 		v := c15Var{Name: fmt.Sprintf("var%d", i)}
-		switch r.Intn(7) {
+		switch r.Intn(9) {
+		case 7:
+			v.Class = names[n-1]
+			v.TypeStr = "AliasMap"
+			v.Access = "[\"k\"]"
+			v.Via = "map-alias"
+		case 8:
+			v.Class = names[n-1]
+			v.TypeStr = "AliasMapTwo"
+			v.Access = "[\"k\"]"
+			v.Via = "map-alias-chain"
 		case 0, 1:
 			v.Class = pick()
 			v.TypeStr = v.Class
@@ -394,7 +405,7 @@ func runC15(c *Ctx) {
 		}
 	})
 	c.Finish("generated class hierarchies (2-10 classes, up to 3 parents each, diamonds, every 4th graph with cycles and cyclic aliases, classes split over 1-3 files, class table "+
-		"variables with methods / assigned members) and variables typed by ---@type through a class, an alias, an alias of an alias, T[], table<K,V> and an alias of an array; "+
+		"variables with methods / assigned members) and variables typed by ---@type through a class, an alias, an alias of an alias, T[], table<K,V>, an alias of an array, an alias of a table<K,V> and an alias of that alias; "+
 		"flow (i): go-to-definition on v.member for every expected field must lead to its ---@field name; flow (ii): the document is edited to end in `v.` and completion with "+
 		"trigger '.' must return exactly the transitive field set plus the documented assigned members (superset for cyclic graphs; cyclic aliases only have to return). "+
 		"distinct_nontrivial = distinct (workspace, member or variable) queried", 100)
